@@ -152,7 +152,11 @@ func c12Copy(b [][]sdkmath.Int) [][]sdkmath.Int {
 
 // c12AnyRawCoins: an arbitrary message amount as a literal coin list (entries may be zero or negative: ValidateBasic must cope).
 func c12AnyRawCoins(tag string) sdk.Coins {
-	switch zz.Choose(tag+".shape", 4) {
+	switch zz.Choose(tag+".shape", 6) {
+	case 4: // the same denomination twice (not a valid Coins value; only a hand-built message can carry it)
+		return sdk.Coins{sdk.Coin{Denom: "aISLM", Amount: zz.AnySdkInt(tag + ".aISLM")}, sdk.Coin{Denom: "aISLM", Amount: zz.AnySdkInt(tag + ".aISLM2")}}
+	case 5: // unsorted
+		return sdk.Coins{sdk.Coin{Denom: "aLIQUID1", Amount: zz.AnySdkInt(tag + ".aLIQUID1")}, sdk.Coin{Denom: "aISLM", Amount: zz.AnySdkInt(tag + ".aISLM")}}
 	case 0:
 		return sdk.Coins{}
 	case 1:
@@ -171,7 +175,12 @@ func VerifC12_Fund() {
 	amt := c12AnyRawCoins("amount")
 	wallet0 := []sdkmath.Int{st.bank.get(c12Addr(who).String(), "aISLM"), st.bank.get(c12Addr(who).String(), "aLIQUID1")}
 	srv := NewMsgServerImpl(st.k)
-	_, err := srv.Fund(sdk.WrapSDKContext(st.ctx), &types.MsgFund{Depositor: c12Addr(who).String(), Amount: amt})
+	msg := &types.MsgFund{Depositor: c12Addr(who).String(), Amount: amt}
+	if msg.ValidateBasic() != nil { // stateless validation runs before any handler
+		zz.Reach("?rejected-by-validation")
+		return
+	}
+	_, err := srv.Fund(sdk.WrapSDKContext(st.ctx), msg)
 	if err != nil {
 		// a failed message is rolled back by the SDK (state changes of a failing handler are discarded)
 		zz.Reach("rejected")
@@ -209,7 +218,15 @@ func VerifC12_Transfer() {
 		moved = []sdkmath.Int{st.bal[owner][0].ToLegacyDec().Mul(ratio).TruncateInt(), st.bal[owner][1].ToLegacyDec().Mul(ratio).TruncateInt()}
 	default:
 		amt := c12AnyRawCoins("amount")
-		_, err = srv.TransferOwnershipWithAmount(goCtx, &types.MsgTransferOwnershipWithAmount{Owner: c12Addr(owner).String(), NewOwner: c12Addr(newOwner).String(), Amount: amt})
+		msg := &types.MsgTransferOwnershipWithAmount{Owner: c12Addr(owner).String(), NewOwner: c12Addr(newOwner).String(), Amount: amt}
+		if msg.ValidateBasic() != nil { // stateless validation runs before any handler
+			zz.Reach("?rejected-by-validation")
+			return
+		}
+		_, err = srv.TransferOwnershipWithAmount(goCtx, msg)
+		if err == nil {
+			zz.Assert(amt.IsValid(), "an accepted amount is a well-formed coin list (sorted, unique denominations, positive)")
+		}
 		moved = []sdkmath.Int{amt.AmountOf("aISLM"), amt.AmountOf("aLIQUID1")}
 	}
 	if err != nil {
